@@ -266,6 +266,24 @@ def r5(ctx: Ctx) -> None:
 
 @rule("C04.R6", "cancel marks the order and removes it when resting; the reaper removes exactly the expired orders and buckets", "T4 pairing", floor=4)
 def r6(ctx: Ctx) -> None:
+    # whole buckets leave the expiry index only when the clock has passed them (other orders may share the step)
+    import ast as _ast
+
+    nb = 0
+    for wr in ctx.cg.writers_of("OrderBook", "expire_time_list"):
+        n_ = wr.node
+        on_index = False
+        if wr.kind == "mutcall" and isinstance(n_, _ast.Call) and isinstance(n_.func, _ast.Attribute) and isinstance(n_.func.value, _ast.Attribute) and n_.func.value.attr == "expire_time_list" and wr.detail in ("pop", "popitem", "clear", "__delitem__"):
+            on_index = True
+        if wr.kind in ("del", "delelem"):
+            tgt = n_.targets[0] if isinstance(n_, _ast.Delete) and n_.targets else None
+            on_index = isinstance(tgt, _ast.Subscript) and isinstance(tgt.value, _ast.Attribute) and tgt.value.attr == "expire_time_list"
+        if not on_index:
+            continue
+        nb += 1
+        ok = caller_ok(ctx, wr.func, lambda g: g.qualname == "OrderBook._check_expired_orders")
+        ctx.check(ok, wr.func, n_, "a whole bucket is dropped from the expiry index only by the reaper, once its time has passed", "OrderBook._check_expired_orders", f"{wr.func.qualname} drops a bucket: every other order that expires at that step loses its entry")
+    ctx.require(nb >= 1, "OrderBook: no place that drops expired buckets found")
     f = ctx.func("OrderBook.cancel")
     for p in normal_paths(ctx.paths(f.qualname)):
         marks = [e for e in stores(p, "is_canceled")]
@@ -273,7 +291,9 @@ def r6(ctx: Ctx) -> None:
         ctx.check(ok, f, f.node, "cancel marks the order on every path", "cancel.order.is_canceled = True", f"{len(marks)} store(s)")
         resting = [pol for c, pol, _ in p.conds if key(strip_ver(c)).startswith("(cancel.order in self.priority_queue")]
         rem = [e for e in calls(p) if calls_target(e, "OrderBook._remove") and key(strip_ver(kw(e, "order", 0) or NONE)) == "cancel.order"]
-        ctx.require(len(resting) == 1, "OrderBook.cancel: membership test `cancel.order in self.priority_queue` not found")
+        if len(resting) != 1:
+            ctx.unrec(f, f.node, "cancel removes the order iff it is still resting", "membership test `cancel.order in self.priority_queue` not found on the path")
+            continue
         ctx.check((len(rem) == 1) == resting[0], f, f.node, "cancel removes the order iff it is still resting", "resting -> _remove(cancel.order); else nothing", f"resting={resting[0]} removes={len(rem)}")
     # _remove takes the order out of the queue on every normal path
     f = ctx.func("OrderBook._remove")
@@ -286,6 +306,22 @@ def r6(ctx: Ctx) -> None:
             ctx.unrec(f, f.node, "the order leaves the priority queue", "removal idiom not recognised (neither heappop-of-top nor remove(order)): " + ", ".join(sorted({getattr(e, "name", e.kind) for e in anymut})))
             continue
         ctx.check(ok, f, f.node, "the order leaves the priority queue (pop only when it is the top)", "heappop if top else remove(order)", ", ".join(e.name for e in out) + f" top={top}" if out else "the queue is not modified")
+        # ... and out of its expiry bucket when it has one (otherwise the reaper meets a filled or cancelled order again)
+        ttl = [pol for c, pol, _ in p.conds if key(strip_ver(c)) in ("(order.ttl is None)", "(None is order.ttl)")]
+        etl = [e for e in p.walk_events() if (e.kind == "call" and e.data.get("mutates") is not None and "expire_time_list" in key(strip_ver(e.data["mutates"]))) or (e.kind in ("store", "del") and e.base is not None and "expire_time_list" in key(strip_ver(e.base)))]
+        if ttl == [False]:
+            good = [e for e in etl if e.kind == "call" and e.name == "remove" and e.args and key(e.args[0]) == "order" and strip_ver(e.recv)[0] == "sub" and key(strip_ver(e.recv)[1]) == "self.expire_time_list"]
+            if good and len(etl) == 1:
+                idx = strip_ver(good[0].recv)[2]
+                ctx.check(poly_of(idx) == poly_of(("bin", "+", ("attr", ("sym", "order"), "placed_at"), ("attr", ("sym", "order"), "ttl"))), f, good[0].node, "a removed order with a lifetime also leaves its expiry bucket", "expire_time_list[placed_at + ttl].remove(order)", short(idx))
+            elif not etl:
+                ctx.violated(f, f.node, "a removed order with a lifetime also leaves its expiry bucket", "expire_time_list[placed_at + ttl].remove(order)", "the expiry index is left as it is: the order is met again (and reported as expired) when its lifetime ends")
+            else:
+                ctx.unrec(f, f.node, "a removed order with a lifetime also leaves its expiry bucket", "the expiry index is changed in a form that is not modelled: " + ", ".join(sorted({getattr(e, "name", None) or e.kind for e in etl})))
+        elif not ttl and not etl:
+            ctx.violated(f, f.node, "a removed order with a lifetime also leaves its expiry bucket", "if order.ttl is not None: expire_time_list[placed_at + ttl].remove(order)", "no such step on this path")
+        elif not ttl:
+            ctx.unrec(f, f.node, "a removed order with a lifetime also leaves its expiry bucket", "no decision on `order.ttl is None` found on the path")
     # reaper: decided by where the removed / recorded / popped values come from, whatever the loop shape
     from .reaper import check as reaper_check
 
